@@ -1745,7 +1745,7 @@ class StateEngine(object):
                     else:
                         handle_error(state, data.get("Error"), data.get("Cause"))
                 else:
-                    asl_state_collect_results(state_type)
+                    asl_state_collect_results(state_type, id != None)
             else:
                 """
                 If task_terminated just tidy up self.branch_metadata for current
@@ -3029,11 +3029,15 @@ class StateEngine(object):
             
             self.event_dispatcher.set_timeout(asl_state_Map_delegate, retry_timeout)
 
-        def asl_state_collect_results(state_type):
+        def asl_state_collect_results(state_type, own_event=False):
             """
             Collect the results from the branches of Parallel and Map states.
             Wait until every branch terminates (reaches a terminal state) before
             processing the Parallel or Map state's “Next” field.
+
+            own_event is set when the event being handled is that of the
+            terminal state itself, which for a Map state only happens when it
+            has no items and so ends its Branch or Iterator directly.
             """
             # Get data object from event again to ensure we have result not input.
             data = event["data"]
@@ -3126,7 +3130,8 @@ class StateEngine(object):
             event_ids = branch_results["ids"]
 
             result[index] = data
-            if previous_state_type != "Parallel" and previous_state_type != "Map":
+            if own_event or (previous_state_type != "Parallel" and
+                             previous_state_type != "Map"):
                 event_ids[index] = id
 
             #print("----- asl_state_collect_results -----")
